@@ -613,6 +613,10 @@ class RelativeJSONPointer:
             parts.extend(self.pointer.parts)
         else:
             assert self.pointer == "#"
+            if not parts:
+                raise RelativeJSONPointerIndexError(
+                    "the document root has no member name or index"
+                )
             parts[-1] = f"#{parts[-1]}"
 
         return JSONPointer.from_parts(
